@@ -48,7 +48,7 @@ def simultaneity(ctx, py: PyRepo):
     rets = [p for p in ev.paths(fn) if p.end[0] == 'return']
     ctx.require(rets, 'Instantiate.instantiate has no returning path')
     for i, p in enumerate(rets):
-        ok, why = simultaneous(p.end[1])
+        ok, why = simultaneous(p.end[1], p)
         ctx.ob('simultaneous-instantiate', f'Instantiate.instantiate/path{i}', ok, why, where, facts={'returns': show(p.end[1])})
 
 
@@ -58,8 +58,10 @@ def _strip_frozendict(v):
     return v
 
 
-def simultaneous(v):
-    """(ok, reason): the result applies ONE map to the untouched body (or delegates to the expansion)"""
+def simultaneous(v, path=None):
+    """(ok, reason): the result applies ONE map to the untouched body (or delegates to the expansion).  The map is read in the normal
+    form of core/mapparts.py, so a merge of comprehensions and an accumulation loop are the same thing."""
+    from ..core.mapparts import map_parts
     if v == ('call', ('attr', ('call', ('attr', SELF, 'simplify'), (), ()), 'instantiate'), (DELTA,), ()):
         return True, ''
     if not (v[0] == 'call' and v[1] == ('name', 'Instantiate') and len(v[2]) == 2):
@@ -70,54 +72,46 @@ def simultaneous(v):
             return False, (f'the body is instantiated first ({show(body)}) and the stored map is applied afterwards: a sequential '
                            f'composition - plugs of the first map that mention keys of the second are instantiated twice')
         return False, f'the body of the result is {show(body)}, not the untouched notation body'
-    m = _strip_frozendict(m)
-    parts = []
-    if m[0] == 'dict':
-        for k, val in m[1]:
-            if k != ('const', '**'):
-                return False, 'merged map with literal keys'
-            parts.append(_strip_frozendict(val))
-    elif m[0] == 'binop' and m[1] == 'BitOr':
-        parts = [_strip_frozendict(m[2]), _strip_frozendict(m[3])]
-    else:
-        parts = [m]
+    parts = map_parts(path, m) if path is not None else None
+    if parts is None:
+        return False, f'map outside the subset: {show(m)[:120]}'
+    STORED = ('call', ('attr', ('attr', SELF, 'inst'), 'items'), (), ())
+    GIVEN = ('call', ('attr', DELTA, 'items'), (), ())
     have_inst = have_delta = False
-    kept_parts = []
+    kept_sources = []
     for part in parts:
-        if part[0] != 'comp' or part[1] != 'dictcomp' or len(part[3]) != 1:
-            return False, f'map component outside the subset: {show(part)}'
-        tgt, it, ifs = part[3][0]
-        elt = part[2]
-        names = [x.strip() for x in tgt.strip('()').split(',')]
-        if len(names) != 2 or elt[0] != 'pair' or elt[1] != ('bound', names[0]):
-            return False, f'map component outside the subset: {show(part)}'
-        if it == ('call', ('attr', ('attr', SELF, 'inst'), 'items'), (), ()):
-            disjoint = ('call', ('attr', ('call', ('attr', ('bound', names[1]), 'metavars'), (), ()), 'isdisjoint'), (DELTA,), ())
-            if elt[2] == ('bound', names[1]) and list(ifs) == [disjoint]:
-                # a stored plug none of whose metavariables is instantiated equals its instantiation: sharing it is the same map entry
-                kept_parts.append(part)
-                continue
-            # stored plugs, each instantiated with delta
-            if elt[2] != ('call', ('attr', ('bound', names[1]), 'instantiate'), (DELTA,), ()):
-                return False, f'stored plugs are carried over as {show(elt[2])} instead of being instantiated with delta'
-            # the instantiated part may leave out exactly the entries that were kept (or nothing)
-            for c in ifs:
-                complement = (c == ('not', disjoint)) or (c[0] == 'cmp' and c[1] == 'not in' and c[2] == ('bound', names[0]) and c[3] in kept_parts)
-                if not complement:
-                    return False, f'stored plugs are instantiated only under `{show(c)}`: the others are dropped from the map'
-            have_inst = True
-        elif it == ('call', ('attr', DELTA, 'items'), (), ()):
-            if elt[2] != ('bound', names[1]):
-                return False, 'entries of delta are altered while being merged'
-            shadow = ('cmp', 'not in', ('bound', names[0]), ('attr', SELF, 'inst'))
-            flat = []
-            for c in ifs:
-                flat.extend(c[2] if c[0] == 'boolop' and c[1] == 'and' else [c])
-            if shadow not in flat:
-                return False, 'entries of delta are merged without excluding the keys the notation already binds (k not in self.inst)'
-            have_delta = True
+        elem = ('elem', part.source)
+        K, V = ('item', elem, 0), ('item', elem, 1)
+        if part.source == STORED:
+            disjoint = ('call', ('attr', ('call', ('attr', V, 'metavars'), (), ()), 'isdisjoint'), (DELTA,), ())
+            for conds, key, val in part.alts:
+                if key != K:
+                    return False, f'a stored entry is re-keyed as {show(key)}'
+                if val == V:
+                    # a stored plug none of whose metavariables is instantiated equals its instantiation: sharing it is the same entry
+                    if (disjoint, True) not in conds:
+                        return False, 'stored plugs are carried over without being instantiated with delta'
+                    kept_sources.append(part)
+                    continue
+                if val != ('call', ('attr', V, 'instantiate'), (DELTA,), ()):
+                    return False, f'stored plugs are carried over as {show(val)} instead of being instantiated with delta'
+                for c, pol in conds:
+                    complement = (c == disjoint and pol is False) or (c[0] == 'cmp' and c[1] == 'in' and c[2] == K and pol is False
+                                                                      and any(_strip_frozendict(c[3]) == kp.raw for kp in kept_sources))
+                    if not complement:
+                        return False, f'stored plugs are instantiated only under `{show(c)}` = {pol}: the others are dropped from the map'
+                have_inst = True
+            if part.kind == 'loop' and part.skips and not kept_sources:
+                return False, 'some stored entries are left out of the rebuilt map'
+        elif part.source == GIVEN:
+            for conds, key, val in part.alts:
+                if key != K or val != V:
+                    return False, 'entries of delta are altered while being merged'
+                if (('cmp', 'in', K, ('attr', SELF, 'inst')), False) not in conds:
+                    return False, 'entries of delta are merged without excluding the keys the notation already binds (k not in self.inst)'
+                have_delta = True
         else:
-            return False, f'map component ranges over {show(it)}'
+            return False, f'map component ranges over {show(part.source)}'
     if not have_inst:
         return False, 'the stored map is dropped'
     if not have_delta:
